@@ -2,6 +2,7 @@
 package small
 
 import (
+	"verif/internal/norm"
 	"fmt"
 	"go/ast"
 	"go/token"
@@ -101,6 +102,7 @@ type poolState struct {
 	blockLen term
 	fresh    bool
 	locals   map[types.Object]term
+	ptrs     map[types.Object]term // locals holding &block[i]: the index when the address was taken
 }
 
 func (s poolState) clone() poolState {
@@ -109,10 +111,15 @@ func (s poolState) clone() poolState {
 	for k, v := range s.locals {
 		n.locals[k] = v
 	}
+	n.ptrs = map[types.Object]term{}
+	for k, v := range s.ptrs {
+		n.ptrs[k] = v
+	}
 	return n
 }
 
 type poolAnalyser struct {
+	ninfo *types.Info // type information of the normalised body of Get
 	pk      *packages.Package
 	prog    *load.Program
 	recv    types.Object
@@ -122,7 +129,12 @@ type poolAnalyser struct {
 	problem string
 }
 
-func (pa *poolAnalyser) info() *types.Info { return pa.pk.TypesInfo }
+func (pa *poolAnalyser) info() *types.Info {
+	if pa.ninfo != nil {
+		return pa.ninfo
+	}
+	return pa.pk.TypesInfo
+}
 
 func unparen(e ast.Expr) ast.Expr {
 	for {
@@ -376,6 +388,82 @@ func PoolTypestate(p *load.Program, rel string, res *report.RuleResult) {
 		return
 	}
 	allowed := map[string]bool{rel + ".Pool.Get": true, rel + "." + ctor.Name.Name: true}
+	// a helper method of the pool that only Get (or another such helper) calls is part of Get: its body is
+	// inlined into the paths analysed below
+	callers := map[string]map[string]bool{}
+	valued := map[string]bool{}
+	for _, q := range p.All {
+		for _, fd := range load.FuncDecls(q) {
+			caller := fd.Name.Name
+			if fd.Recv != nil {
+				caller = "Pool." + caller
+			}
+			caller = load.Rel(q.Types) + "." + caller
+			var stack []ast.Node
+			ast.Inspect(fd.Body, func(x ast.Node) bool {
+				if x == nil {
+					stack = stack[:len(stack)-1]
+					return true
+				}
+				stack = append(stack, x)
+				se, ok := x.(*ast.SelectorExpr)
+				if !ok {
+					return true
+				}
+				fn, _ := q.TypesInfo.Uses[se.Sel].(*types.Func)
+				if fn == nil || fn.Pkg() != pk.Types {
+					return true
+				}
+				sig := fn.Type().(*types.Signature)
+				if sig.Recv() == nil {
+					return true
+				}
+				rt := sig.Recv().Type()
+				if pt, ok := rt.(*types.Pointer); ok {
+					rt = pt.Elem()
+				}
+				if rt != tn.Type() {
+					return true
+				}
+				name := rel + ".Pool." + fn.Name()
+				isCall := false
+				if len(stack) >= 2 {
+					if c, ok := stack[len(stack)-2].(*ast.CallExpr); ok && c.Fun == se {
+						isCall = true
+					}
+				}
+				if !isCall {
+					valued[name] = true
+				}
+				if callers[name] == nil {
+					callers[name] = map[string]bool{}
+				}
+				callers[name][caller] = true
+				return true
+			})
+		}
+	}
+	for changed := true; changed; {
+		changed = false
+		for w := range writers {
+			if allowed[w] || valued[w] || len(callers[w]) == 0 || !strings.HasPrefix(w, rel+".Pool.") {
+				continue
+			}
+			if ast.IsExported(strings.TrimPrefix(w, rel+".Pool.")) {
+				continue
+			}
+			all := true
+			for c := range callers[w] {
+				if !allowed[c] {
+					all = false
+				}
+			}
+			if all {
+				allowed[w] = true
+				changed = true
+			}
+		}
+	}
 	for w := range writers {
 		res.Check(allowed[w], key+"/who-touches/"+w, "-", w, "pool state is touched only by the constructor and Get", "function "+w+" reads or writes the pool's block/off fields: the typestate argument covers only the constructor and Get")
 	}
@@ -416,37 +504,94 @@ func (pa *poolAnalyser) checkCtor(res *report.RuleResult, key string, fd *ast.Fu
 	pos := pa.prog.Pos(fd.Pos())
 	fn := fd.Name.Name
 	bad := func(why string) { res.Bad(key+"/ctor", pos, fn, why) }
-	if len(fd.Body.List) != 1 || fd.Type.Params.NumFields() != 1 {
-		res.Unknown(key+"/ctor", pos, fn, "undecided:idiom: constructor is not a single return of a Pool literal")
+	if fd.Type.Params.NumFields() != 1 || len(fd.Type.Params.List[0].Names) != 1 {
+		res.Unknown(key+"/ctor", pos, fn, "undecided:idiom: constructor does not take exactly one block size")
 		return
 	}
-	ret, ok := fd.Body.List[0].(*ast.ReturnStmt)
-	if !ok || len(ret.Results) != 1 {
-		res.Unknown(key+"/ctor", pos, fn, "undecided:idiom: constructor is not a single return")
-		return
+	// two shapes: `return &Pool{…}`, or `p := new(Pool) / &Pool{…}; p.f = e; …; return p`
+	inits := map[string]ast.Expr{}
+	addLit := func(cl *ast.CompositeLit) bool {
+		for _, el := range cl.Elts {
+			kv, ok := el.(*ast.KeyValueExpr)
+			if !ok {
+				bad("positional Pool literal")
+				return false
+			}
+			inits[kv.Key.(*ast.Ident).Name] = kv.Value
+		}
+		return true
 	}
-	ue, ok := unparen(ret.Results[0]).(*ast.UnaryExpr)
-	if !ok || ue.Op != token.AND {
-		res.Unknown(key+"/ctor", pos, fn, "undecided:idiom: constructor does not return &Pool{…}")
-		return
+	litOf := func(e ast.Expr) (*ast.CompositeLit, bool, bool) { // literal, isNew, ok
+		e = unparen(e)
+		if ue, ok := e.(*ast.UnaryExpr); ok && ue.Op == token.AND {
+			if cl, ok := ue.X.(*ast.CompositeLit); ok {
+				return cl, false, true
+			}
+		}
+		if c, ok := e.(*ast.CallExpr); ok && len(c.Args) == 1 {
+			if id, ok := c.Fun.(*ast.Ident); ok && id.Name == "new" {
+				if _, isB := pa.info().Uses[id].(*types.Builtin); isB {
+					return nil, true, true
+				}
+			}
+		}
+		return nil, false, false
 	}
-	cl, ok := ue.X.(*ast.CompositeLit)
-	if !ok {
-		res.Unknown(key+"/ctor", pos, fn, "undecided:idiom: constructor does not return &Pool{…}")
+	var obj types.Object
+	shapeOK := false
+	for i, st := range fd.Body.List {
+		switch x := st.(type) {
+		case *ast.ReturnStmt:
+			if i != len(fd.Body.List)-1 || len(x.Results) != 1 {
+				break
+			}
+			if obj == nil {
+				if cl, isNew, ok := litOf(x.Results[0]); ok && !isNew {
+					if !addLit(cl) {
+						return
+					}
+					shapeOK = true
+				}
+			} else if id, ok := unparen(x.Results[0]).(*ast.Ident); ok && pa.info().Uses[id] == obj {
+				shapeOK = true
+			}
+		case *ast.AssignStmt:
+			if len(x.Lhs) != 1 || len(x.Rhs) != 1 {
+				shapeOK = false
+				break
+			}
+			if id, ok := x.Lhs[0].(*ast.Ident); ok && x.Tok == token.DEFINE && obj == nil && i == 0 {
+				if cl, isNew, ok := litOf(x.Rhs[0]); ok {
+					obj = pa.info().Defs[id]
+					if !isNew && !addLit(cl) {
+						return
+					}
+					continue
+				}
+			}
+			if se, ok := x.Lhs[0].(*ast.SelectorExpr); ok && x.Tok == token.ASSIGN && obj != nil {
+				if id, ok := se.X.(*ast.Ident); ok && pa.info().Uses[id] == obj {
+					inits[se.Sel.Name] = x.Rhs[0]
+					continue
+				}
+			}
+			res.Unknown(key+"/ctor", pos, fn, "undecided:idiom: constructor statement outside `p := new(Pool); p.f = e; return p`")
+			return
+		default:
+			res.Unknown(key+"/ctor", pos, fn, "undecided:idiom: constructor is neither `return &Pool{…}` nor `p := new(Pool); p.f = e; return p`")
+			return
+		}
+	}
+	if !shapeOK {
+		res.Unknown(key+"/ctor", pos, fn, "undecided:idiom: constructor is neither `return &Pool{…}` nor `p := new(Pool); p.f = e; return p`")
 		return
 	}
 	param := pa.info().Defs[fd.Type.Params.List[0].Names[0]]
 	sawBlock := false
-	for _, el := range cl.Elts {
-		kv, ok := el.(*ast.KeyValueExpr)
-		if !ok {
-			bad("positional Pool literal")
-			return
-		}
-		name := kv.Key.(*ast.Ident).Name
+	for name, val := range inits {
 		switch name {
 		case pa.blockF:
-			c, ok := unparen(kv.Value).(*ast.CallExpr)
+			c, ok := unparen(val).(*ast.CallExpr)
 			if !ok || len(c.Args) != 2 {
 				bad("block is not a fresh make([]T, blockSize)")
 				return
@@ -467,7 +612,7 @@ func (pa *poolAnalyser) checkCtor(res *report.RuleResult, key string, fd *ast.Fu
 			}
 			sawBlock = true
 		case pa.offF:
-			if tv, ok := pa.info().Types[kv.Value]; !ok || tv.Value == nil || tv.Value.ExactString() != "0" {
+			if tv, ok := pa.info().Types[val]; !ok || tv.Value == nil || tv.Value.ExactString() != "0" {
 				bad("off does not start at 0")
 				return
 			}
@@ -488,7 +633,11 @@ func (pa *poolAnalyser) checkGet(res *report.RuleResult, key string, fd *ast.Fun
 		return
 	}
 	pa.recv = pa.info().Defs[fd.Recv.List[0].Names[0]]
-	ps, err := paths.Enumerate(fd.Body)
+	// canonical shape: helper methods of the pool inlined, switches as if-chains, single-use locals propagated
+	nz := norm.New(pa.pk, norm.Options{NoLoops: true})
+	body := nz.Body(fd)
+	pa.ninfo = nz.Info
+	ps, err := paths.Enumerate(body)
 	if err != nil {
 		res.Unknown(key+"/get", pos, fn, "undecided:idiom: "+err.Error())
 		return
@@ -556,26 +705,42 @@ func (pa *poolAnalyser) checkGet(res *report.RuleResult, key string, fd *ast.Fun
 			res.Bad(pkey, pa.prog.Pos(ret.Pos()), fn, "Get can return nil for a positive block size on path "+strings.Join(desc, " "))
 			continue
 		}
-		// &p.block[e]
+		// &p.block[e], or a local that holds such an address
 		ue, ok := unparen(ret.Results[0]).(*ast.UnaryExpr)
 		var ix *ast.IndexExpr
+		var ptrObj types.Object
 		if ok && ue.Op == token.AND {
 			ix, _ = unparen(ue.X).(*ast.IndexExpr)
 		}
-		if ix == nil {
+		if id, isId := unparen(ret.Results[0]).(*ast.Ident); isId {
+			ptrObj = pa.info().Uses[id]
+		}
+		if ix == nil && ptrObj == nil {
 			res.Unknown(pkey, pos, fn, "undecided:idiom: result is not &block[i]")
 			continue
 		}
-		if f, ok := pa.recvField(ix.X); !ok || f != pa.blockF {
-			res.Bad(pkey, pos, fn, "result does not point into the pool's current block")
-			continue
+		if ix != nil {
+			if f, ok := pa.recvField(ix.X); !ok || f != pa.blockF {
+				res.Bad(pkey, pos, fn, "result does not point into the pool's current block")
+				continue
+			}
 		}
 		why := ""
 		for _, s := range states {
-			e, ok := pa.eval(ix.Index, &s)
-			if !ok {
-				why = "index " + types.ExprString(ix.Index) + " is outside the linear fragment"
-				break
+			var e term
+			ok := false
+			if ix != nil {
+				e, ok = pa.eval(ix.Index, &s)
+				if !ok {
+					why = "index " + types.ExprString(ix.Index) + " is outside the linear fragment"
+					break
+				}
+			} else {
+				e, ok = s.ptrs[ptrObj]
+				if !ok {
+					why = "the returned local does not hold the address of an element of the current block on this path"
+					break
+				}
 			}
 			switch {
 			case !s.z.entails(zero, e, 0) || !s.z.entails(e, s.blockLen, -1):
@@ -651,6 +816,7 @@ func (pa *poolAnalyser) exec(s ast.Stmt, st *poolState) string {
 				}
 				st.blockLen = n
 				st.fresh = true
+				st.ptrs = map[types.Object]term{} // addresses taken before point into the abandoned block
 				return ""
 			}
 		}
@@ -658,6 +824,20 @@ func (pa *poolAnalyser) exec(s ast.Stmt, st *poolState) string {
 			obj := pa.info().Defs[id]
 			if obj == nil {
 				obj = pa.info().Uses[id]
+			}
+			// item := &p.block[i]
+			if ue, ok := unparen(s.Rhs[0]).(*ast.UnaryExpr); ok && ue.Op == token.AND && obj != nil {
+				if ix, ok := unparen(ue.X).(*ast.IndexExpr); ok {
+					if f, ok := pa.recvField(ix.X); ok && f == pa.blockF {
+						if e, ok := pa.eval(ix.Index, st); ok {
+							if st.ptrs == nil {
+								st.ptrs = map[types.Object]term{}
+							}
+							st.ptrs[obj] = e
+							return ""
+						}
+					}
+				}
 			}
 			if v, ok := pa.eval(s.Rhs[0], st); ok && obj != nil {
 				st.locals[obj] = v
